@@ -1,15 +1,23 @@
 """C05: see DESIGN.md section 3 C05."""
-from _ccmon import standard_plan, floor_msgs, COMMON_ASSUMPTIONS, EVOLVE_NOTE, FAULT_NOTE
+from _ccmon import standard_plan, native, evolve, NOFIN, NONE, floor_msgs, COMMON_ASSUMPTIONS, EVOLVE_NOTE, FAULT_NOTE
 
 LEVEL = "exploration"
 RULE = 'histories are generated per shard from (seed, index) by harness/src/gen.rs (weights of mode C05: 70% of objects have finalizer scripts of up to 3 actions (read neighbours, clear slots, clone into globals, allocate, upgrade weaks, collect, try_unwrap, finalize_again)) plus the directed corpus harness/src/directed.rs; each is executed against the real crate with all oracles on, followed by an epilogue that releases everything and collects until quiet. distinct = distinct expanded operation lists (FNV hash); non-trivial iff at least 2 finalizers ran within one collection and a finalizer with a non-empty script ran inside a collection'
-RULE += EVOLVE_NOTE + FAULT_NOTE
+RULE += EVOLVE_NOTE + FAULT_NOTE + ' The same histories also run on builds without the finalization feature, where any call of Finalize::finalize is a violation.'
 ASSUMPTIONS = COMMON_ASSUMPTIONS
 FLOORS = {'cb_finalize': 2000}
 
 
 def plan(ctx):
-    return standard_plan(ctx, "C05", mode="C05", after_faults=True, need_fin=True)
+    steps = standard_plan(ctx, "C05", mode="C05", after_faults=True, need_fin=True)
+    # last clause of the statement: with the finalization feature disabled, finalize is never called at all (both
+    # reclamation paths; the payload's Finalize impl reports any call)
+    n = 6000 if ctx.quick else 60000
+    for fs in (NOFIN, NONE) if ctx.quick else (NOFIN, NONE, "weak-ptrs", "auto-collect"):
+        steps += native(ctx, "C05", "C05", fs, "debug", n, 1, tag="nofin-")
+        steps += native(ctx, "C05", "C05", fs, "release", n, 1, tag="nofin-")
+    steps += evolve(ctx, "C05", "C05", NOFIN, "release", n, 1)
+    return steps
 
 
 def floors(ctx, evaluations, distinct, counters, sets):
